@@ -89,7 +89,7 @@ def classify_source(e, fn, arrays, depth=0):
     if e.k == "DeclRefExpr":
         key = (fn.unit, e.j.get("did"))
         if key in arrays:
-            return BOUNDED, arrays[key].size
+            return BOUNDED, arrays[key].size - 1
         if e.j.get("dk") == "local" and depth < 4:
             defs = _local_defs(fn, e.j["name"])
             if defs:
@@ -153,6 +153,52 @@ def parse_format(fmt):
             out.append((fmt[i], width or None, prec))
             i += 1
     return out
+
+
+def conv_max_width(conv, length, prec_val, argtype):
+    """conservative maximal number of characters a numeric printf conversion can produce"""
+    if conv in "di":
+        return 20 if ("l" in length or "j" in length or "z" in length or (argtype or "").startswith("long")) else 11
+    if conv in "u":
+        return 20 if ("l" in length or "j" in length or "z" in length or "long" in (argtype or "")) else 10
+    if conv in "xX":
+        return 16 if ("l" in length or "long" in (argtype or "")) else 8
+    if conv in "o":
+        return 22 if ("l" in length or "long" in (argtype or "")) else 11
+    if conv == "c":
+        return 1
+    if conv in "gGeE":
+        p = 6 if prec_val is None else max(1, prec_val)
+        if conv in "eE":
+            p += 1
+        return p + (8 if "L" in length else 7)      # sign, point, 'e', exponent sign, 3 (4) exponent digits
+    if conv in "fF":
+        p = 6 if prec_val is None else prec_val
+        return 312 + p
+    if conv in "aA":
+        return 32
+    if conv == "p":
+        return 18
+    return 24
+
+
+def format_literal_len(fmt):
+    n = 0
+    i = 0
+    while i < len(fmt):
+        if fmt[i] != "%":
+            n += 1
+            i += 1
+            continue
+        i += 1
+        if i < len(fmt) and fmt[i] == "%":
+            n += 1
+            i += 1
+            continue
+        while i < len(fmt) and fmt[i] in "-+ #0'.*0123456789hlLqjzt":
+            i += 1
+        i += 1
+    return n
 
 
 def dest_array(arg, fn, arrays):
@@ -254,11 +300,18 @@ def analyse_fixed_arrays(prog, util):
                     else:
                         rest = args[spec["fmt"] + 1:]
                         ai = 0
-                        for conv, width, prec in parse_format(fmt):
+                        import re as _re
+                        lens = _re.findall(r"%[-+ #0']*[0-9*]*(?:\.[0-9*]*)?([hlLqjzt]*)([a-zA-Z])", fmt.replace("%%", ""))
+                        for k, (conv, width, prec) in enumerate(parse_format(fmt)):
+                            length = lens[k][0] if k < len(lens) else ""
+                            pv = None
                             if width == "*":
                                 ai += 1
                             if prec == "*":
+                                pv = rest[ai].const_value() if ai < len(rest) else None
                                 ai += 1
+                            elif prec not in (None, ""):
+                                pv = int(prec)
                             if conv == "s":
                                 if prec not in (None, "*", ""):
                                     srcs.append((BOUNDED, int(prec)))
@@ -267,10 +320,13 @@ def analyse_fixed_arrays(prog, util):
                                 else:
                                     srcs.append((UNBOUNDED, "missing argument"))
                             else:
-                                srcs.append((BOUNDED, conv))
+                                at = rest[ai].j.get("ct") if ai < len(rest) else None
+                                w = conv_max_width(conv, length, pv, at)
+                                if width and width.isdigit():
+                                    w = max(w, int(width))
+                                srcs.append((BOUNDED, w))
                             ai += 1
-                        if not srcs:
-                            srcs.append((LITERAL, len(fmt)))
+                        srcs.append((LITERAL, format_literal_len(fmt)))
                 else:
                     for si in spec["src"]:
                         if isinstance(si, int) and si < len(args):
@@ -293,18 +349,22 @@ def analyse_fixed_arrays(prog, util):
                     continue
                 rel = "none" if lim is None else limit_relation(args[lim], arr, off)
                 if worst[0] in (LITERAL, BOUNDED):
+                    total = 0
+                    for cl, det in srcs:
+                        total += det if isinstance(det, int) else 24
+                    fits = off is None and total + 1 <= arr.size
                     if rel == "tied":
-                        sites.append(WriteSite(arr, f, c, name, "ok", "bounded sources, limit tied to the array", worst[0]))
+                        if fits:
+                            sites.append(WriteSite(arr, f, c, name, "ok", "bounded sources (<= %d bytes + NUL) fit %d, limit tied to the array" % (total, arr.size), worst[0]))
+                        elif arr.size_mac in OS_LIMIT_MACROS:
+                            sites.append(WriteSite(arr, f, c, name, "os-limit-truncation",
+                                                   "bounded sources of up to %d bytes cut at %s: names are only claimed up to the OS limits" % (total, arr.size_mac), worst[0]))
+                        else:
+                            sites.append(WriteSite(arr, f, c, name, "truncation",
+                                                   "the text can be up to %d bytes long (+NUL) but %s has %d: the longest values are cut" % (total, arr.name, arr.size), worst[0]))
                     else:
-                        total = 0
-                        ok = off is None
-                        for cl, det in srcs:
-                            if isinstance(det, int):
-                                total += det
-                            else:
-                                total += 24     # an integer conversion
-                        if ok and total < arr.size:
-                            sites.append(WriteSite(arr, f, c, name, "ok", "bounded sources (<= %d bytes) fit %d" % (total, arr.size), worst[0]))
+                        if fits:
+                            sites.append(WriteSite(arr, f, c, name, "ok", "bounded sources (<= %d bytes + NUL) fit %d" % (total, arr.size), worst[0]))
                         else:
                             sites.append(WriteSite(arr, f, c, name, "overflow",
                                                    "bounded sources of up to %d bytes into %d bytes without a tied limit" % (total, arr.size), worst[0]))
@@ -440,12 +500,31 @@ def _linear(e, fn, depth=0):
         return [_norm(e.call_args()[0])], 0
     if e.k == "DeclRefExpr" and e.j.get("dk") == "local" and depth < 3:
         defs = _local_defs(fn, e.j["name"])
-        if len(defs) == 1:
+        adds = [rhs for lhs, rhs, st, kind in query.stores(fn)
+                if kind == "op=" and st.j.get("op") == "+=" and render(lhs) == e.j["name"]]
+        if len(defs) == 1 and not adds:
             return _linear(defs[0], fn, depth + 1)
+        # accumulator: v = 0; v = E0; v += E1 (possibly under a condition) ...
+        plain = [d for d in defs if d.const_value() != 0 or d.strip().k != "IntegerLiteral"]
+        if len(plain) == 1 and adds:
+            base = _linear(plain[0], fn, depth + 1)
+            if base is None:
+                return None
+            terms, const = list(base[0]), base[1]
+            for a in adds:
+                la = _linear(a, fn, depth + 1)
+                if la is None:
+                    return None
+                terms += la[0]      # optimistic: conditional terms counted as present
+            ACCUMULATED.add(id(fn))
+            return terms, const
         return None
     if cv is not None:
         return [], cv
     return None
+
+
+ACCUMULATED = set()
 
 
 class FitSite:
@@ -466,7 +545,9 @@ def analyse_exact_fit(prog, util=False):
             continue
         for c in f.calls(("malloc", "alloca", "__builtin_alloca")):
             size = c.call_args()[0]
+            ACCUMULATED.discard(id(f))
             lin = _linear(size, f)
+            accumulated = id(f) in ACCUMULATED
             if lin is None or not lin[0]:
                 continue        # not a strlen-sized string buffer
             terms, const = lin
@@ -555,6 +636,9 @@ def analyse_exact_fit(prog, util=False):
                                    "needs %d extra bytes (separators, literals, NUL) but the size only adds %d" % (need_const, const)))
             elif not needed_terms and not extra:
                 out.append(FitSite(f, c, var, terms, const, "unknown", "no copy into the buffer recognised"))
+            elif accumulated:
+                out.append(FitSite(f, c, var, terms, const, "unknown",
+                                   "the size is accumulated over several (conditional) statements; the fit is not provable syntactically"))
             else:
                 out.append(FitSite(f, c, var, terms, const, "ok",
                                    "copies %s (+%d bytes) into strlen(%s)+%d" % (needed_terms, need_const, "+".join(terms), const)))
@@ -573,3 +657,152 @@ def _rd(f):
 
 def _in_loop_with(f, n, c):
     return False
+
+
+# ---- Part 3: unlimited copies into heap memory -------------------------------------------------------
+
+def _redefined_between(fn, names, d_node, a_node):
+    """Is any of the variables redefined on a path from d_node to a_node that does not pass
+    d_node again?  (Definitions inside a_node's own argument list, e.g. a[i++], do not count.)"""
+    cfg = fn.cfg
+    rd = _rd(fn)
+    pd, pa = cfg.index_of(d_node), cfg.index_of(a_node)
+    if pd is None or pa is None:
+        return True
+    db, ab = pd[0], pa[0]
+    fwd = set()
+    for s2 in cfg.blocks[db].succs:
+        if s2 is not None and s2 != db:
+            fwd |= cfg.reachable(s2, avoid_blocks=[db])
+    bwd = cfg.reachable(ab, avoid_blocks=[db], forward=False) if ab != db else set()
+    mid = fwd & bwd
+    for d in rd.defs:
+        if d.var not in names or d.node is None or d.node is d_node or d.kind == "uninit":
+            continue
+        if d.node.within(a_node):
+            continue
+        px = cfg.index_of(d.node)
+        if px is None:
+            continue
+        b, k = px
+        if b == db and b == ab:
+            if pd[1] < k < pa[1]:
+                return True
+        elif b == db:
+            if k > pd[1] and ab in fwd:
+                return True
+        elif b == ab:
+            if k < pa[1] and b in mid:
+                return True
+        elif b in mid:
+            return True
+    return False
+
+
+def _names(e):
+    return set(x.j["name"] for x in e.walk() if x.k == "DeclRefExpr" and x.j.get("dk") in ("local", "param"))
+
+
+def size_form(e, fn, at, depth=0):
+    """linear form of a size expression valid at node `at`:
+    dict(terms=[strlen operands], const=int, opaque=[variables], nonlinear=bool)"""
+    e = e.strip()
+    out = dict(terms=[], const=0, opaque=[], nonlinear=False)
+    cv = e.const_value()
+    if cv is not None and e.k != "DeclRefExpr":
+        out["const"] = cv
+        return out
+    if e.k == "BinaryOperator" and e.j.get("op") == "+":
+        a = size_form(e.children[0], fn, at, depth)
+        b = size_form(e.children[1], fn, at, depth)
+        return dict(terms=a["terms"] + b["terms"], const=a["const"] + b["const"], opaque=a["opaque"] + b["opaque"],
+                    nonlinear=a["nonlinear"] or b["nonlinear"])
+    if e.k == "BinaryOperator" and e.j.get("op") == "*":
+        a, b = e.children[0].strip(), e.children[1].strip()
+        for x, y in ((a, b), (b, a)):
+            if y.k == "UnaryExprOrTypeTraitExpr" and y.const_value() == 1:
+                return size_form(x, fn, at, depth)
+        out["nonlinear"] = True
+        return out
+    if e.k == "CallExpr" and e.j.get("callee") == "strlen":
+        out["terms"] = [_norm(e.call_args()[0])]
+        return out
+    if e.k == "DeclRefExpr" and e.j.get("dk") in ("local", "param"):
+        if e.j.get("dk") == "local" and depth < 3:
+            rd = _rd(fn)
+            defs = [d for d in rd.reaching(e.j["name"], at) if d.kind in ("assign", "init")]
+            alld = rd.reaching(e.j["name"], at)
+            if len(alld) == 1 and len(defs) == 1 and defs[0].rhs is not None:
+                d = defs[0]
+                if not _redefined_between(fn, _names(d.rhs), d.node, at):
+                    return size_form(d.rhs, fn, d.node, depth + 1)
+        out["opaque"] = [e.j["name"]]
+        return out
+    if cv is not None:
+        out["const"] = cv
+        return out
+    out["nonlinear"] = True
+    return out
+
+
+class HeapCopy:
+    def __init__(self, fn, call, src, verdict, why):
+        self.fn, self.call, self.src, self.verdict, self.why = fn, call, src, verdict, why
+
+    @property
+    def key(self):
+        return "%s:%s:%s" % (self.fn.name, self.call.j.get("callee"), self.src)
+
+
+HEAP_ALLOCS = ("malloc", "calloc", "realloc", "alloca", "__builtin_alloca", "strdup", "strndup")
+
+
+def analyse_heap_copies(prog, util=False):
+    """Every unlimited copy (strcpy/stpcpy/strcat) of an unbounded string into memory that stems
+    from an allocation: each allocation the destination may stem from must be sized with
+    strlen(<that string>), valid at the allocation."""
+    ftab = prog.util_functions if util else prog.functions
+    arrays = char_arrays(prog, util)
+    out = []
+    for f in ftab.values():
+        if f.file.endswith(".h"):
+            continue
+        rd = None
+        for c in f.calls(("strcpy", "stpcpy", "strcat")):
+            a = c.call_args()
+            if len(a) < 2:
+                continue
+            arr, off = dest_array(a[0], f, arrays)
+            if arr is not None:
+                continue
+            cl = classify_source(a[1], f, arrays)
+            if cl[0] != UNBOUNDED:
+                continue
+            rd = rd or _rd(f)
+            o = origins(rd, a[0], c)
+            allocs = [x for x in o if not isinstance(x, tuple) and x.k == "CallExpr" and x.j.get("callee") in HEAP_ALLOCS]
+            if not allocs:
+                continue
+            src = _norm(a[1])
+            verdict, why = "ok", []
+            for al in allocs:
+                cn = al.j["callee"]
+                if cn in ("strdup", "strndup"):
+                    verdict = "overflow"
+                    why.append("the destination may be the exact-size copy made by %s() at %s" % (cn, al.where))
+                    continue
+                sz = al.call_args()[1] if cn == "realloc" else al.call_args()[0]
+                if cn == "calloc":
+                    sz = al.call_args()[0]
+                form = size_form(sz, f, al)
+                if src in form["terms"] and not _redefined_between(f, _names(a[1]), al, c):
+                    continue
+                if form["nonlinear"]:
+                    if verdict == "ok":
+                        verdict = "unknown"
+                    why.append("size %s at %s is not a linear strlen form" % (render(sz), al.where))
+                else:
+                    verdict = "overflow"
+                    why.append("allocation size `%s` at %s does not include strlen(%s)" % (render(sz), al.where, src))
+            out.append(HeapCopy(f, c, src, verdict, "; ".join(why) or "every allocation the destination stems from is sized with strlen(%s)" % src))
+    return out
